@@ -10,7 +10,7 @@ from .C13 import site_class
 
 ID = "C10"
 LEVEL = "fault_enumeration"
-RULE = ("the 25 (start state, call) cases of C13 (store_object new / duplicate / empty content, first / additional "
+RULE = ("the 29 (start state, call) cases of C13 (incl. validated / stream stores and delete_if_invalid_object) (store_object new / duplicate / empty content, first / additional "
         "pid, cid with a list but no object; tag_object; delete_object sole / shared reference, with metadata, "
         "missing object; store_metadata create / overwrite; delete_metadata one / all; bystander pids share the "
         "subject's object and carry metadata; thorough: each case in 5 identifier / configuration variants - pid lengths "
@@ -21,14 +21,16 @@ RULE = ("the 25 (start state, call) cases of C13 (store_object new / duplicate /
         "opens a FRESH instance. Oracle: every bystander's pid ref, retrieve bytes, membership exactly once in its "
         "own cid list and metadata documents as before; the interrupted pid is retrievable with complete correct "
         "bytes or reported not-found/inconsistent; delete_object(pid) succeeds or says unknown; store_object(pid, "
-        "data) (same and different content) then succeeds and is retrievable. distinct_nontrivial = distinct "
+        "data) (same and different content) then succeeds and is retrievable; afterwards LATER calls on every bystander "
+        "(store_metadata, delete_metadata(all), retrieve_object, delete_object) must complete. distinct_nontrivial = distinct "
         "(case, crash point, recovery content) runs in which the child really died at the point.")
 ASSUMPTIONS = ["crash = process death with the page cache intact (no power loss / fsync ordering)",
                "crash points are file-system operation boundaries plus the user-space buffer flush points exposed by the probe"]
 EXHAUSTIVE = {"quick": True, "thorough": True}
 SYMPTOMS = {"bystander-changed", "interrupted-pid-served-wrong-bytes", "interrupted-pid-served-other-content",
             "interrupted-pid-unexpected-error", "recovery-delete-failed", "recovery-store-failed",
-            "recovery-store-not-retrievable", "bystander-changed-by-recovery", "recovery-store-metadata-failed"}
+            "recovery-store-not-retrievable", "bystander-changed-by-recovery", "recovery-store-metadata-failed",
+            "bystander-later-call-failed"}
 WATCHDOG_S = 3600
 
 
@@ -50,13 +52,20 @@ def run_shard(case_idxs, tier, sub_seed):
         scratch = new_scratch("crash")
         try:
             case = F.Case(ci, scratch, variant=variant)
-            res.count("cases")
             sites = case.sites(F.CRASH_KINDS)
+            if sites:
+                res.count("cases")
             if not sites:
-                res.inconclusive.append(f"case {case.label}: no mutating operation intercepted (probe bypassed?)")
+                if case.ops:
+                    # the fault-free call legitimately changes nothing (e.g. delete_if_invalid_object on a referenced
+                    # object): there is no crash state to generate
+                    res.count("cases_without_mutating_operation")
+                    res.count("cases")
+                else:
+                    res.inconclusive.append(f"case {case.label}: no operation intercepted (probe bypassed?)")
                 continue
             res.count("crash_points_enumerated", len(sites))
-            recov = ["X", "Z"] if case.call["op"] in ("store", "tag", "delete") else ["X"]
+            recov = ["X", "Z"] if case.call["op"] in ("store", "tag", "delete") and case.call.get("pid") else ["X"]
             for site in sites + [len(case.ops)]:
                 for rc in recov:
                     code = F.run_crash(case, site)
